@@ -70,6 +70,15 @@ Definition judge_float (l o : list Z) : bool :=
 
 Definition judge (t : tree) : option (list Z) :=
   match t with
+  (* comparisons of float result collections ([0] scores, [1] errors, [2] individuals over scores): by the totals where
+     those are comparable; == structural (with equal genomes for the individuals) *)
+  | L [L [A 16; A pol; la; lb]; o] =>
+      olet la := tlist tZ la in olet lb := tlist tZ lb in olet o := tlist tZ o in
+      let (fa, fb) := (map of_bits la, map of_bits lb) in
+      let z := fzero true in
+      Some [if zlist_eqb o (expect (fresults_pcmp (pol =? 1) z fa fb) (fresults_eqb z fa fb) false) then 0 else 2]
+  (* no total order on TestResult: [not Ord; 2 (no cmp); control: i64 is Ord; cmp 1 2 = Less] *)
+  | L [L [A 17]; o] => olet o := tlist tZ o in Some [if zlist_eqb o [0; 2; 1; -1] then 0 else 2]
   | L [L [A 13; A _; l]; o] => olet l := tlist tZ l in olet o := tlist tZ o in
       if forallb (fun b => (0 <=? b) && (b <? 2^64) && (bits (of_bits b) =? b)) l
       then Some [if judge_float l o then 0 else 2] else None
